@@ -77,9 +77,9 @@ Print Assumptions C12_markdown_patterns_pinned.
 Require Import PX.Model.Warnings PX.Spec.Csv PX.Model.Choices PX.Proofs.Choices PX.Model.CsvBook PX.Proofs.CsvBook.
 (* For EVERY workbook of supported, distinctly keyed sheets with a header row of distinct non-empty cells and cells free of surrounding
    white space, writing the rows as CSV text (every field quoted) and reading the text back gives: the sheet names in order, and for each
-   sheet its header row and, row by row, every filled cell under its own header (rows without any cell are skipped). *)
+   sheet its header row and, row by row, every filled cell under its own header (a row without any cell is kept as an empty row, so that row numbers are those of the table, except below the last row of a sheet). *)
 Theorem C12_csv_round_trip : forall W, NoDup (all_keys W) -> Forall PX.Proofs.CsvBook.sheet_ok W ->
-  option_map (csv_book lower_ascii) (parse_csv (write_csv (flat_map sheet_rows W))) = Some ((k_sheet_names, VNames (map sname W)) :: flat_map entries W).
+  option_map (csv_book lower_ascii) (parse_csv (write_csv (flat_map sheet_rows W))) = Some ((k_sheet_names, VNames (map sname W)) :: flat_map final_entries W).
 Proof. exact csv_text_round_trip. Qed.
 Print Assumptions C12_csv_round_trip.
 Theorem C12_csv_nonvacuous : NoDup (all_keys ex_csv_workbook) /\ Forall PX.Proofs.CsvBook.sheet_ok ex_csv_workbook.
